@@ -26,7 +26,7 @@ CONFIG = dict(
     min_nontrivial={"quick": 1500, "thorough": 20000},
     nshards={"quick": 8, "thorough": 16},
     timeout={"quick": 600, "thorough": 3600},
-    required_counters=("deliveries_checked", "failed_checks_before_later_ones", "report_files_checked", "safety_checks", "loader_reports_compared"),
+    required_counters=("deliveries_checked", "nesting_cases_within_budget", "failed_checks_before_later_ones", "report_files_checked", "safety_checks", "loader_reports_compared"),
 )
 
 MODULES = {
@@ -329,6 +329,70 @@ def corpus(ctx):
         yield label, data
 
 
+def nesting_sweep(ctx, f, analysis, loader, UnsafeFileError):
+    """Deeply nested literals as call arguments.  Whatever decompiles with a tenth of the stack to spare must be
+    analysable with the whole stack: the analysis may cost a constant number of extra frames, not a share per level."""
+    import sys
+    agg = ctx.agg
+    limit = sys.getrecursionlimit()
+
+    def nested(shape, d):
+        if shape == "tuple1":
+            return b"K\x01" + b"\x85" * d
+        if shape == "tuple2":
+            return b"K\x01" + b"K\x02\x86" * d
+        if shape == "list":
+            return b"]" * d + b"K\x01a" + b"a" * (d - 1)
+        if shape == "dict":
+            return b"}K\x00" * d + b"K\x01" + b"s" * d
+        raise ValueError(shape)
+    idx = 0
+    for shape in ("tuple1", "tuple2", "list", "dict"):
+        for d in range(40, 900, 10):
+            idx += 1
+            if idx % ctx.nshards != ctx.shard:
+                continue
+            for head in (b"cvp_sink\nhit\n(", b"ccollections\nOrderedDict\n("):
+                data = head + nested(shape, d) + b"tR."
+                sys.setrecursionlimit(int(limit * 0.9))
+                try:
+                    try:
+                        ast.unparse(f.Pickled.load(data).ast)
+                        fits = True
+                    except RecursionError:
+                        fits = False
+                    except Exception:
+                        fits = None
+                finally:
+                    sys.setrecursionlimit(limit)
+                if not fits:
+                    continue
+                agg.case(h(data), True, {"label": f"nesting-{shape}-{d}"})
+                agg.count("nesting_cases_within_budget")
+                w = {"label": f"nesting-{shape}-{d}", "hex": data.hex()[:400], "depth": d, "shape": shape}
+                try:
+                    res = analysis.check_safety(f.Pickled.load(data))
+                    json.dumps(res.to_dict())
+                except RecursionError:
+                    agg.violation("analysis-raises:RecursionError:within-decompile-budget",
+                                  f"{shape} nested {d} deep decompiles with a tenth of the stack to spare, but the safety check "
+                                  f"exhausts the whole stack", w)
+                    return
+                except Exception as e:
+                    agg.violation(f"analysis-raises:{type(e).__name__}", f"nested literal: {str(e)[:100]}", w)
+                    return
+                try:
+                    loader.load(io.BytesIO(data))
+                except UnsafeFileError:
+                    pass
+                except RecursionError:
+                    agg.violation("loader-raises:RecursionError:within-decompile-budget",
+                                  f"{shape} nested {d} deep: the checked loader exhausts the stack", w)
+                    return
+                except Exception:
+                    pass
+
+
 def setup():
     import fickling  # noqa: F401  (registers every analysis, as any real use does)
     import fickling.fickle as f
@@ -342,6 +406,7 @@ def setup():
 def run_shard(ctx):
     f, analysis, loader, U = setup()
     ctx.agg.notes.append({"registered_analyses": [type(a).__name__ for a in analysis.Analysis.ALL]})
+    nesting_sweep(ctx, f, analysis, loader, U)
     for label, data in corpus(ctx):
         check(ctx, f, analysis, loader, U, label, data)
 
